@@ -7,7 +7,8 @@ RULE = ("`vcdmt mt:<threads>:<minchunk> <vars> <realmap> <body>`: the generated 
         "parser (model) and with the single-threaded load of the same body (spec). Quick: hand-over-safe line-disciplined bodies (LF and CRLF) x 2..8 threads x EVERY "
         "padding 0..chunk-1 of the first line (a boundary at every byte alignment), bodies with chunks holding no timestamp, plus unsafe bodies "
         "(repeated / backwards / mid-line timestamps, multi-line comments, free-form layout) on which the implementation must do exactly what the model predicts "
-        "(known finding FMT). non-trivial = load succeeds with >= 2 time steps; distinct = distinct (request, reply)")
+        "(known finding FMT). non-trivial = load succeeds with >= 2 time steps; distinct = distinct (request, reply)"
+        " `chunks <threads> <len>`: the production chunk arithmetic (no override) in pools of 1..16 (32) threads for body lengths 0..2^40 (around every multiple of the minimum chunk size, powers of two, random): chunk list vs the Lean formula, covering predicate (contiguous from 0, reaches the end, at most one chunk per thread) vs the specification.")
 
 
 def canon_impl(l):
@@ -62,7 +63,31 @@ def requests(ctx):
         vars_ = vcdgen.gen_vars(rng, nvars=6, style="dense")
         body = safe_body(rng, vars_, nsteps=rng.choice([200, 400]))
         rq.append(" ".join(["vcdmt", f"mt:{rng.choice([2, 4, 16])}:prod"] + vcdgen.request("st", vars_, body).split(" ")[2:]))
+    # the production chunk arithmetic itself (no override), for every pool size and body lengths from 0 to 2^40:
+    # around every multiple of the minimum chunk size, powers of two, random
+    lens = set([0, 1, 2, 3, 100, 8191, 8192, 8193])
+    for k in range(1, 40):
+        for d in (-1, 0, 1):
+            lens.add(max(0, k * 8192 + d))
+            lens.add(max(0, (1 << k) + d))
+    for _ in range(200 if quick else 5000):
+        lens.add(rng.randrange(0, 1 << rng.choice([14, 18, 22, 26, 32, 40])))
+    for n in sorted(lens):
+        for t in (1, 2, 3, 4, 7, 8, 16) if quick else range(1, 33):
+            rq.append(f"chunks {t} {n}")
     return rq
+
+
+def split_chunks(rq, impl, model):
+    r2, i2, m2 = [], [], []
+    for r, i, m in zip(rq, impl, model):
+        if r.startswith("chunks ") and ";" in i and ";" in m.split("\t")[0]:
+            mm, sp = (m.split("\t") + ["-"])[:2]
+            r2.append(r); i2.append(i); m2.append(mm + "\t-")                                   # list: implementation vs model
+            r2.append(r + " #covers"); i2.append(i.split(";")[0]); m2.append(mm.split(";")[0] + "\t" + sp)   # predicate vs spec
+        else:
+            r2.append(r); i2.append(i); m2.append(m)
+    return r2, i2, m2
 
 
 def run(ctx):
@@ -75,6 +100,8 @@ def run(ctx):
         rq = corpus_requests("C03") + requests(ctx)
         impl = [canon_impl(l) for l in ctx.impl(rq)]
         model = ctx.model(rq)
+        # `chunks`: the list is compared with the model (correspondence), the covering predicate with the specification
+        rq, impl, model = split_chunks(rq, impl, model)
         core.compare_streams(res, rq, impl, model,
                              is_nontrivial=lambda r, i: i.startswith("tt=") and i.split("|")[0].count(",") >= 1,
                              label="chunked parser model ~ multi-threaded load", sample_every=max(1, len(rq) // 8))
